@@ -58,6 +58,7 @@ INVARIANT DoneOK
 INVARIANT NoLossAtSet
 INVARIANT PopSafe
 INVARIANT NoDoubleRelease
+INVARIANT SparseAgrees
 INVARIANT NeverSwallowed
 INVARIANT RaisedOnlyOnFault
 PROPERTY ChildrenFirstStep
@@ -292,17 +293,22 @@ def replay_walk(ctx, depth, nw, accepts, apexes, nbeh, faults="none", simdepth=4
     return okc, drifted
 
 
-def ops_table(ctx, depth, confs):
-    """TLC computes the expected operation set (live non-leaf tiles) for each (accept, apex)."""
+def ops_table(ctx, depth, confs, sparse=False):
+    """TLC computes the expected operation set (live non-leaf tiles) for each (accept, apex); sparse: by descending through
+    accepted tiles only (SLiveSet, proved equal to LiveSet by the invariant SparseAgrees wherever both are computable)."""
     defs = [("Cases", tla.lit([[sorted(a), list(x)] for a, x in confs])),
             "Accs == [i \\in DOMAIN Cases |-> {Cases[i][1][j] : j \\in DOMAIN Cases[i][1]}]",
-            "Row(i) == LET L == LiveSet(Accs[i], Cases[i][2]) IN [ops |-> {p \\in L : p[1] < Depth}, leaves |-> {p \\in L : p[1] = Depth}]",
+            "Row(i) == LET L == %s(Accs[i], Cases[i][2]) IN [ops |-> {p \\in L : p[1] < Depth}, leaves |-> {p \\in L : p[1] = Depth}]" % ("SLiveSet" if sparse else "LiveSet"),
             "ASSUME JsonSerialize(IOEnv.OUT, [i \\in DOMAIN Cases |-> Row(i)])"]
-    # WalkPar has CONSTANTS; instantiate through a cfg with dummy values
-    outp = os.path.join(ctx.scratch, "ops-%d-%d.json" % (depth, len(confs)))
-    mod = tla.module("OpsTable", ["WalkPar", "Json", "IOUtils"], defs + [
-        "TAcc == {{}}", "TApex == {Root}", "TFaults == {{}}"])
-    cfg = "SPECIFICATION Spec\nCHECK_DEADLOCK FALSE\nCONSTANTS\n Depth = %d\n NW = 1\n Cap = 1\n AcceptSets <- TAcc\n Apexes <- TApex\n FaultSets <- TFaults\n Checked = TRUE\n" % depth
+    outp = os.path.join(ctx.scratch, "ops-%d-%d-%d.json" % (depth, len(confs), int(sparse)))
+    if sparse:
+        # constant evaluation only (no behaviour spec): the module has no variables
+        mod = tla.module("OpsTable", ["SparseLive", "Json", "IOUtils"], defs)
+        cfg = "CONSTANTS\n Depth = %d\n" % depth
+    else:
+        # WalkPar has CONSTANTS; instantiate through a cfg with dummy values
+        mod = tla.module("OpsTable", ["WalkPar", "Json", "IOUtils"], defs + ["TAcc == {{}}", "TApex == {Root}", "TFaults == {{}}"])
+        cfg = "SPECIFICATION Spec\nCHECK_DEADLOCK FALSE\nCONSTANTS\n Depth = %d\n NW = 1\n Cap = 1\n AcceptSets <- TAcc\n Apexes <- TApex\n FaultSets <- TFaults\n Checked = TRUE\n" % depth
     ctx.tlc("OpsTable", extra={"OpsTable.tla": mod}, cfg_text=cfg, env={"OUT": outp}, workers=1, timeout=600, count=False)
     rows = json.load(open(outp))
     return [{"ops": [T(p) for p in r["ops"]], "leaves": [T(p) for p in r["leaves"]]} for r in rows]
@@ -331,6 +337,70 @@ def explore_walk(ctx, depth, confs, nws, policies, runs):
                                out.workers_alive_at_return, rep)
                     if ops:
                         ctx.distinct(("sched", depth, nw, apex, tuple((a, o) for a, _op, o in out.trace)))
+
+
+def deep_sparse_cases(rng, ncases):
+    """Deep, sparse filtered pyramids: two or three thin branches down to depth 15-19 whose tiles sit at large coordinates,
+    pairs of them related by a power-of-two step in x and one step in y (positions that a packed or truncated key would
+    confuse), the rest random.  Returns [(depth, accept set, apex)]."""
+    out = []
+    for _ in range(ncases):
+        depth = rng.randint(15, 19)
+        L = rng.randint(13, depth - 2)
+        j = rng.choice([j_ for j_ in (4, 8, 10, 12, 16) if j_ < L])
+        xa = rng.randrange(2 ** j, 2 ** L)
+        ya = rng.randrange(1, 2 ** L - 1)
+        dy = rng.choice([1, -1])
+        b = (L, xa - 2 ** j, ya + dy)
+        tiles = [(L, xa, ya), b]
+        if rng.random() < 0.5:
+            tiles.append((L, rng.randrange(2 ** L), rng.randrange(2 ** L)))
+        acc = set()
+        for t in tiles:
+            q_ = t
+            while q_[0] > 0:                       # ancestors
+                acc.add(q_)
+                q_ = (q_[0] - 1, q_[1] // 2, q_[2] // 2)
+            q_ = t
+            fan = rng.choice([1, 2, 4])            # children kept per level below the branch tile
+            front = [t]
+            while front and front[0][0] < depth:
+                nxt = []
+                for f in front:
+                    ks = kids(f)
+                    for k in rng.sample(ks, fan if f[0] == L else 1):
+                        acc.add(k)
+                        nxt.append(k)
+                front = nxt
+        out.append((depth, frozenset(acc), ROOT))
+    return out
+
+
+def explore_deep(ctx, ncases, policies, runs):
+    by_depth = {}
+    for d, acc, apex in deep_sparse_cases(ctx.rng, ncases):
+        by_depth.setdefault(d, []).append((acc, apex))
+    for depth, confs in sorted(by_depth.items()):
+        table = ops_table(ctx, depth, confs, sparse=True)
+        for (acc, apex), row in zip(confs, table):
+            ops = row["ops"]
+            big = max(max(p[1], p[2]) for p in ops)
+            ser = []
+            with simrun.quiet():
+                build_pyramid(depth, acc, apex).walk(lambda pos: ser.append(T(pos)), parallel=1)
+            ctx.count()
+            rep0 = {"depth": depth, "accept": sorted(acc), "apex": apex, "largest_coordinate": big}
+            judge_walk(ctx, "serial walk of a deep sparse pyramid (depth %d, coordinates to %d)" % (depth, big), ops,
+                       [(t, p, None) for p in ser for t in ("cb_start", "cb_end")], "returned", None, [], rep0, keyprefix="C01:walk-serial")
+            for pol in policies:
+                for k in range(runs):
+                    log = []
+                    out = simrun.run(walk_main(depth, acc, apex, 3, log), simrun.POLICIES[pol](ctx.rng))
+                    ctx.count()
+                    rep = dict(rep0, workers=3, policy=pol, seed=ctx.seed, trace_tail=[list(map(str, t)) for t in out.trace[-40:]])
+                    judge_walk(ctx, "parallel walk (3 workers, %s) of a deep sparse pyramid (depth %d, coordinates to %d)" % (pol, depth, big), ops, log,
+                               out.status, out.exc, out.workers_alive_at_return, rep)
+                    ctx.distinct(("deep", depth, tuple(sorted(acc))[:6], tuple((a, o) for a, _op, o in out.trace)))
 
 
 def explore_children_first_under_fault(ctx, depth, confs, nw, runs):
@@ -518,6 +588,9 @@ def run(ctx):
                  ["random", "starve-feeder", "stall-w1-cb"], 2 if q else 10)
     explore_walk(ctx, 1, [(frozenset(l1[:2]), ROOT, False), (frozenset(l1), (1, 0, 0), False)], [2], ["random"], 2)
     explore_children_first_under_fault(ctx, 2, [(full2, ROOT, True), (fam[3], ROOT, False)], 2, 3 if q else 12)
+    # (3a) deep, sparse pyramids: positions at large coordinates (beyond 2^12 and 2^16), expected operations from TLC's sparse
+    # computation of the live set
+    explore_deep(ctx, 5 if q else 40, ["random", "stall-w1-cb", "late-timeout"] if q else ["random", "stall-w1-cb", "late-timeout", "starve-feeder", "workers-last"], 2 if q else 4)
     # (3b) histories on one object
     explore_history(ctx, acc3, (2, 0, 1), [2, 3, 2, 3])
     explore_history(ctx, acc3, ROOT, [1, 3, 2])
